@@ -12,6 +12,7 @@ pub mod c04;
 pub mod c06;
 pub mod c07;
 pub mod c08;
+pub mod c09;
 pub mod c10;
 pub mod c11;
 pub mod c12;
@@ -28,6 +29,7 @@ pub fn run(prop: &str, tier: &str) -> ! {
 		"C06" => c06::run(tier),
 		"C07" => c07::run(tier),
 		"C08" => c08::run(tier),
+		"C09" => c09::run(tier),
 		"C10" => c10::run(tier),
 		"C11" => c11::run(tier),
 		"C12" => c12::run(tier),
@@ -41,7 +43,13 @@ pub fn run(prop: &str, tier: &str) -> ! {
 /// Run a list of scenarios through the graph search, feeding one evidence record.
 pub fn run_scenarios(run: &mut Run, scns: &[Scenario], budget: &Budget) {
 	let mut total = Stats::new_complete();
+	let only = std::env::var("PDBMC_ONLY").ok();
 	for scn in scns {
+		if let Some(o) = &only {
+			if !scn.name.contains(o.as_str()) {
+				continue
+			}
+		}
 		let t0 = std::time::Instant::now();
 		let mut scn = scn.clone();
 		scn.property = run.property.clone();
